@@ -742,6 +742,10 @@ func (sqlite *SQLiteDB) GetIssuedEcash() (map[string]uint64, error) {
 		}
 		ecashIssued[keysetId] = amount
 	}
+	// a failing SUM (integer overflow) ends the iteration
+	if err := rows.Err(); err != nil {
+		return nil, err
+	}
 
 	return ecashIssued, nil
 }
@@ -762,6 +766,10 @@ func (sqlite *SQLiteDB) GetRedeemedEcash() (map[string]uint64, error) {
 			return nil, err
 		}
 		ecashRedeemed[keysetId] = amount
+	}
+	// a failing SUM (integer overflow) ends the iteration
+	if err := rows.Err(); err != nil {
+		return nil, err
 	}
 
 	return ecashRedeemed, nil
